@@ -66,6 +66,11 @@ func progressMode(r *common.Run, sk *sink) {
 		runWitnessCrash(r, sk, c, r.Rand("witness-crash", c), r.SubSeed("witness-crash-seed", c))
 		r.Flush()
 	}
+	// directed prefix: a streamed snapshot, then snapshot save / recover jobs of the same replica
+	for _, c := range r.MyCases(r.Pick(8, 80)) {
+		runStreamThenSnapshot(r, sk, c, r.Rand("sts", c), r.SubSeed("sts-seed", c))
+		r.Flush()
+	}
 }
 
 func runProgress(r *common.Run, sk *sink, caseNo int, rng *rand.Rand, seed int64) {
@@ -738,5 +743,195 @@ func runWitnessCrash(r *common.Run, sk *sink, caseNo int, rng *rand.Rand, seed i
 	r.Case(true, common.Hash("witness-crash", caseNo, desc))
 	if r.WantSample() {
 		r.Sample(map[string]interface{}{"witness_crash_case": caseNo, "config": desc, "leader_after_restart": leader})
+	}
+}
+
+// runStreamThenSnapshot: directed prefix for the snapshot worker pool. An
+// on-disk state machine shard; a follower lags beyond the compacted log and is
+// repaired by a streamed snapshot. In the fault-free period that follows, the
+// replica that streamed must still be able to take snapshots (a snapshot
+// request completes) and - after leadership moved away and it lagged itself -
+// to recover from a snapshot sent to it (it catches up).
+func runStreamThenSnapshot(r *common.Run, sk *sink, caseNo int, rng *rand.Rand, seed int64) {
+	store := cluster.Pebble
+	if rng.Intn(3) == 0 {
+		store = cluster.Tan
+	}
+	snap := uint64(8 + rng.Intn(8))
+	desc := fmt.Sprintf("ondisk store=%s snapshotEntries=%d", store, snap)
+	fmt.Printf("stream-then-snapshot case %d %s\n", caseNo, desc)
+	c := cluster.NewCluster(cluster.Options{Hosts: 3, Seed: seed, RTTMs: 10, Store: store,
+		SMOpt: func(uint64, uint64) cluster.SMOptions {
+			return cluster.SMOptions{Kind: cluster.OnDisk, RecordApply: true}
+		}}, sk)
+	const shardID = 1
+	clock := &tickClock{m: map[uint64]*int64{}}
+	verifhook.SetPoint(verifhook.NodeTick, func(s, rep uint64) {
+		if s == shardID {
+			atomic.AddInt64(clock.ctr(rep), 1)
+		}
+	})
+	defer verifhook.SetPoint(verifhook.NodeTick, func(uint64, uint64) {})
+	if err := c.StartAll(); err != nil {
+		r.Inconclusive(fmt.Sprintf("stream-then-snapshot case %d: start failed: %v", caseNo, err))
+		return
+	}
+	defer c.StopAll()
+	members := c.Members(3)
+	replicas := map[uint64]int{1: 0, 2: 1, 3: 2}
+	for i := 0; i < 3; i++ {
+		cfg := cluster.ShardConfig(shardID, uint64(i+1))
+		cfg.SnapshotEntries, cfg.CompactionOverhead = snap, 1
+		if err := c.Hosts[i].StartReplica(members, false, cluster.OnDisk, cfg); err != nil {
+			r.Inconclusive(fmt.Sprintf("stream-then-snapshot case %d: %v", caseNo, err))
+			return
+		}
+	}
+	if !waitFor(15*time.Second, func() bool { return c.SelfLeader(shardID, replicas) >= 0 }) {
+		r.Inconclusive(fmt.Sprintf("stream-then-snapshot case %d: no first leader", caseNo))
+		return
+	}
+	var stopFlag int32
+	var wg sync.WaitGroup
+	var done int64
+	var lastID uint64
+	for g := 0; g < 2; g++ {
+		wg.Add(1)
+		go func(g int) {
+			defer wg.Done()
+			prng := rand.New(rand.NewSource(seed + int64(g)))
+			for atomic.LoadInt32(&stopFlag) == 0 {
+				if li := c.SelfLeader(shardID, replicas); li >= 0 {
+					if nh := c.Hosts[li].NodeHost(); nh != nil {
+						id := cluster.NewID()
+						ctx, cancel := context.WithTimeout(context.Background(), 300*time.Millisecond)
+						if _, err := nh.SyncPropose(ctx, nh.GetNoOPSession(shardID), cluster.MakeCmd(0, id)); err == nil {
+							atomic.AddInt64(&done, 1)
+							atomic.StoreUint64(&lastID, id)
+						}
+						cancel()
+					}
+				}
+				time.Sleep(time.Duration(1+prng.Intn(3)) * time.Millisecond)
+			}
+		}(g)
+	}
+	defer func() { atomic.StoreInt32(&stopFlag, 1); wg.Wait() }()
+	wit := func(stage string) map[string]interface{} {
+		return map[string]interface{}{"case": caseNo, "config": desc, "stage": stage}
+	}
+	has := func(rep uint64, id uint64) bool {
+		in := c.SMs.Latest(shardID, rep)
+		if in == nil {
+			return false
+		}
+		_, lists := in.AppliedAndLists()
+		for i := len(lists[0]) - 1; i >= 0; i-- {
+			if lists[0][i] == id {
+				return true
+			}
+		}
+		return false
+	}
+	// lag(host): cut it off until the others compacted what it misses, heal, then it must hold an
+	// entry completed after the heal within catchUpTicks ticks of its own clock
+	lag := func(hi int, stage string) bool {
+		rep := uint64(hi + 1)
+		c.Net.Isolate(c.Hosts[hi].Addr, false)
+		before := atomic.LoadInt64(&done)
+		waitFor(5*time.Second, func() bool { return atomic.LoadInt64(&done)-before > int64(3*snap+8) })
+		c.Net.HealAll()
+		time.Sleep(50 * time.Millisecond)
+		target := atomic.LoadUint64(&lastID)
+		t0 := clock.get(rep)
+		wall := time.Now()
+		for !has(rep, target) && clock.get(rep)-t0 < catchUpTicks && time.Since(wall) < 180*time.Second {
+			time.Sleep(20 * time.Millisecond)
+		}
+		switch {
+		case has(rep, target):
+			r.Max("max_ticks_until_caught_up", clock.get(rep)-t0)
+			sk.Count("replicas_caught_up", 1)
+			return true
+		case clock.get(rep)-t0 >= catchUpTicks:
+			sk.Violation("C17", "reachable-replica-does-not-catch-up", fmt.Sprintf("replica %d lagged beyond the compacted log, is connected again and processed %d ticks while the shard completed proposals, and still misses an entry committed right after the heal (%s)", rep, clock.get(rep)-t0, stage), wit(stage))
+		default:
+			r.Inconclusive(fmt.Sprintf("stream-then-snapshot case %d: ticks of replica %d did not advance (%s)", caseNo, rep, stage))
+		}
+		return false
+	}
+	l1 := c.SelfLeader(shardID, replicas)
+	if l1 < 0 {
+		r.Inconclusive(fmt.Sprintf("stream-then-snapshot case %d: leader lost", caseNo))
+		return
+	}
+	f := (l1 + 1 + rng.Intn(2)) % 3
+	if !lag(f, "follower repaired by a streamed snapshot") {
+		r.Case(false, common.Hash("sts", caseNo, desc, 1))
+		return
+	}
+	// the replica that streamed takes a snapshot on request
+	streamer := c.SelfLeader(shardID, replicas)
+	if streamer < 0 {
+		streamer = l1
+	}
+	srep := uint64(streamer + 1)
+	t0 := clock.get(srep)
+	completed := false
+	var outcomes []string
+	wall := time.Now()
+	for clock.get(srep)-t0 < 3000 && time.Since(wall) < 180*time.Second {
+		nh := c.Hosts[streamer].NodeHost()
+		if nh == nil {
+			break
+		}
+		rs, err := nh.RequestSnapshot(shardID, dragonboat.SnapshotOption{}, 300*10*time.Millisecond)
+		if err == nil {
+			res := <-rs.ResultC()
+			rs.Release()
+			if res.Completed() {
+				completed = true
+				break
+			}
+			outcomes = append(outcomes, fmt.Sprintf("%+v", res))
+		} else {
+			outcomes = append(outcomes, err.Error())
+		}
+		from := clock.get(srep)
+		for clock.get(srep)-from < 30 && time.Since(wall) < 180*time.Second {
+			time.Sleep(10 * time.Millisecond)
+		}
+	}
+	switch {
+	case completed:
+		sk.Count("snapshot_requests_completed_after_streaming", 1)
+	case clock.get(srep)-t0 >= 3000:
+		w := wit("snapshot request on the replica that streamed")
+		if len(outcomes) > 12 {
+			outcomes = outcomes[len(outcomes)-12:]
+		}
+		w["last_outcomes"] = outcomes
+		sk.Violation("C17", "request-does-not-complete-after-healing:snapshot-request-after-streaming",
+			fmt.Sprintf("replica %d streamed a snapshot to a lagging follower; afterwards no snapshot request on it completed within %d ticks while entries kept being applied", srep, clock.get(srep)-t0), w)
+		r.Case(false, common.Hash("sts", caseNo, desc, 2))
+		return
+	default:
+		r.Inconclusive(fmt.Sprintf("stream-then-snapshot case %d: ticks did not advance during the snapshot requests", caseNo))
+		return
+	}
+	// leadership moves away, the former streamer lags and must recover from a snapshot sent to it
+	if nh := c.Hosts[streamer].NodeHost(); nh != nil {
+		_ = nh.RequestLeaderTransfer(shardID, uint64((streamer+1)%3+1))
+	}
+	waitFor(3*time.Second, func() bool { l := c.SelfLeader(shardID, replicas); return l >= 0 && l != streamer })
+	if l := c.SelfLeader(shardID, replicas); l >= 0 && l != streamer {
+		ok := lag(streamer, "former streamer repaired by a snapshot")
+		r.Case(ok, common.Hash("sts", caseNo, desc, 3))
+	} else {
+		sk.Count("leader_transfer_did_not_happen", 1)
+		r.Case(false, common.Hash("sts", caseNo, desc, 4))
+	}
+	if r.WantSample() {
+		r.Sample(map[string]interface{}{"stream_then_snapshot_case": caseNo, "config": desc, "proposals": atomic.LoadInt64(&done)})
 	}
 }
